@@ -383,3 +383,222 @@ pub fn table(rng: &mut Rng, count: u64, emit: Emit) {
                      g.cycles, if grouped { 1 } else { 0 }, memf, sexp_escape(&text), sexp), result);
     }
 }
+
+pub fn random_text(rng: &mut Rng) -> String {
+    let atoms: [&str; 62] = ["wire", "const", "register", "in", "x", "foo_1", "Stat", "pc", "é", "ñame", "Ω", "a\u{301}", "_t", "0", "1", "42", "0x1F", "0xff", "0b101", "0b", "0x",
+        "0b102", "12ab", "1x5", "7b101", "340282366920938463463374607431768211455", "340282366920938463463374607431768211456", "0xffffffffffffffffffffffffffffffffg",
+        "=", "==", "!=", "<", "<=", "<<", ">", ">=", ">>", "&", "&&", "|", "||", "^", "~", "!", "+", "-", "*", "/", "(", ")", "[", "]", "{", "}", ":", ";", ",", "..", ".", "#c\n", "// c\n", "/* c */"];
+    let extras: [&str; 14] = [" ", " ", "\n", "\r\n", "\t", "/*", "*/", "/*/", "**/", "$", "@", "\u{2028}", "\u{a0}", "\u{3000}"];
+    let n = rng.range(0, 30);
+    let mut t = String::new();
+    for _ in 0..n {
+        if rng.chance(3, 4) { t.push_str(*rng.pick(&atoms[..])); } else { t.push_str(*rng.pick(&extras[..])); }
+        if rng.chance(1, 2) { t.push(' '); }
+    }
+    if rng.chance(1, 6) {
+        let zeros = rng.range(120, 135) as usize;
+        t.push_str(" 0b"); for _ in 0..zeros { t.push(if rng.chance(1, 2) { '0' } else { '1' }); }
+    }
+    t
+}
+
+pub fn cls3_sexp(text: &str) -> String {
+    use std::fmt::Write;
+    let mut seen = std::collections::BTreeSet::new();
+    for c in text.chars() { if !c.is_ascii() { seen.insert(c); } }
+    let mut s = String::from("(cls");
+    for c in seen {
+        write!(s, " ({} {} {} {})", c as u32, c.is_whitespace() as u8, c.is_alphabetic() as u8, c.is_alphanumeric() as u8).unwrap();
+    }
+    s.push(')');
+    s
+}
+
+/// S-LEX: the real lexer alone on token soup, literals at the 128-bit boundary, comments, Unicode
+pub fn lex(rng: &mut Rng, count: u64, emit: Emit) {
+    for _ in 0..count {
+        let text = random_text(rng);
+        let t2 = text.clone();
+        let res = std::panic::catch_unwind(move || hclrs::verif_hooks::lex(&t2));
+        let result = match res {
+            Err(_) => String::from("PANIC"),
+            Ok((toks, err)) => {
+                let mut items: Vec<String> = toks.iter().map(|(s, t, e)| format!("{}:{}:{}", s, t, e)).collect();
+                if let Some(es) = err {
+                    for d in es {
+                        let sp: Vec<String> = d.spans.iter().map(|(a, b)| if d.kind == "InvalidConstant" { format!("{}:{}", a, b) } else { format!("{}", a) }).collect();
+                        items.push(format!("ERR:{}:{}", d.kind, sp.join(":")));
+                    }
+                }
+                items.join(" ")
+            }
+        };
+        let cps: Vec<String> = text.chars().map(|c| (c as u32).to_string()).collect();
+        emit(format!("(lex {} (text {}))", cls3_sexp(&text), cps.join(" ")), result);
+    }
+}
+
+/// S-LITERAL: literals of known value (decimal, either-case hexadecimal, binary of known digit count) between
+/// comments and blanks; the expected token list is known by construction
+pub fn literal(rng: &mut Rng, count: u64, emit: Emit) {
+    let trivia: [&str; 10] = [" ", "  ", "\n", "\r\n", "\t", " /* c */ ", " # 12 0x3\n", " // 0b1\r\n", " /** 5 **/ ", " /* 1\n2 */ "];
+    for _ in 0..count {
+        let n = rng.range(1, 5);
+        let mut text = String::new();
+        let mut expected: Vec<String> = Vec::new();
+        let mut failed = false;
+        if rng.chance(1, 2) { text.push_str(*rng.pick(&trivia[..])); }
+        for _ in 0..n {
+            // a value of a random magnitude
+            let bits = rng.range(0, 129) as u32;
+            let raw: u128 = ((rng.next() as u128) << 64) | rng.next() as u128;
+            let value: u128 = if bits == 0 { 0 } else if bits >= 128 { raw | (1u128 << 127) } else { (raw & ((1u128 << bits) - 1)) | (1u128 << (bits - 1)) };
+            let start = text.len();
+            let kind = rng.range(0, 10);
+            let mut too_big = false;
+            let width: String;
+            match kind {
+                0..=2 => {
+                    let zeros = if rng.chance(1, 4) { rng.range(1, 4) as usize } else { 0 };
+                    let mut digits = format!("{}{}", "0".repeat(zeros), value);
+                    if rng.chance(1, 8) {
+                        // one past the largest: 2^128 + small, written out by long addition on the decimal string of u128::MAX
+                        digits = String::from(*rng.pick(&["340282366920938463463374607431768211456", "340282366920938463463374607431768211457",
+                            "999999999999999999999999999999999999999", "1000000000000000000000000000000000000000"][..]));
+                        too_big = true;
+                    }
+                    text.push_str(&digits);
+                    width = String::from("u");
+                }
+                3..=5 => {
+                    let zeros = if rng.chance(1, 4) { rng.range(1, 4) as usize } else { 0 };
+                    let mut hex = format!("{}{:x}", "0".repeat(zeros), value);
+                    hex = hex.chars().map(|c| if rng.chance(1, 2) { c.to_ascii_uppercase() } else { c }).collect();
+                    if rng.chance(1, 8) { hex = format!("1{:032x}", value); too_big = true; }
+                    text.push_str("0x"); text.push_str(&hex);
+                    width = String::from("u");
+                }
+                _ => {
+                    let extra = if rng.chance(1, 3) { rng.range(0, 6) as usize } else { 0 };
+                    let body = if bits == 0 { String::from("0") } else { format!("{:b}", value) };
+                    let digits = format!("{}{}", "0".repeat(extra), body);
+                    if digits.len() > 128 { too_big = true; }
+                    text.push_str("0b"); text.push_str(&digits);
+                    width = digits.len().to_string();
+                }
+            }
+            let end = text.len();
+            if too_big {
+                expected.push(format!("ERR:InvalidConstant:{}:{}", start, end));
+                failed = true;
+                break;
+            }
+            expected.push(format!("{}:CONST:{}:{}:{}", start, value, width, end));
+            text.push_str(*rng.pick(&trivia[..]));
+            if rng.chance(1, 3) { text.push_str(*rng.pick(&trivia[..])); }
+        }
+        let _ = failed;
+        let t2 = text.clone();
+        let res = std::panic::catch_unwind(move || hclrs::verif_hooks::lex(&t2));
+        let got = match res {
+            Err(_) => String::from("PANIC"),
+            Ok((toks, err)) => {
+                let mut items: Vec<String> = toks.iter().map(|(s, t, e)| format!("{}:{}:{}", s, t, e)).collect();
+                if let Some(es) = err {
+                    for d in es {
+                        let sp: Vec<String> = d.spans.iter().map(|(a, b)| if d.kind == "InvalidConstant" { format!("{}:{}", a, b) } else { format!("{}", a) }).collect();
+                        items.push(format!("ERR:{}:{}", d.kind, sp.join(":")));
+                    }
+                }
+                items.join(" ")
+            }
+        };
+        let want = expected.join(" ");
+        let result = if got == want { format!("same {}", got) } else { format!("DIFF-LITERAL got {} expected {}", got, want) };
+        let cps: Vec<String> = text.chars().map(|c| (c as u32).to_string()).collect();
+        emit(format!("(lex {} (text {}))", cls3_sexp(&text), cps.join(" ")), result);
+    }
+}
+
+fn strip_spans(sexp: &str) -> String {
+    // "(tag S E " -> "(tag "
+    let mut out = String::new();
+    let b: Vec<char> = sexp.chars().collect();
+    let mut i = 0;
+    while i < b.len() {
+        out.push(b[i]);
+        if b[i] == '(' && i + 1 < b.len() && b[i + 1].is_ascii_alphabetic() {
+            // copy tag
+            let mut j = i + 1;
+            while j < b.len() && b[j].is_ascii_alphabetic() { out.push(b[j]); j += 1; }
+            // skip " S E"
+            let mut k = j;
+            for _ in 0..2 {
+                if k < b.len() && b[k] == ' ' { let mut m = k + 1; while m < b.len() && b[m].is_ascii_digit() { m += 1; } if m > k + 1 { k = m; } }
+            }
+            i = k;
+            continue;
+        }
+        i += 1;
+    }
+    out
+}
+
+/// S-PARSE: expression trees written with minimal and with full parentheses must parse to the same tree
+pub fn parse(rng: &mut Rng, count: u64, emit: Emit) {
+    use crate::gen::{render, render_min, GExpr, Scope, W};
+    let ops: Vec<&'static str> = vec!["||", "&&", "==", "!=", "<", "<=", ">", ">=", "|", "^", "&", "<<", ">>", "+", "-", "*", "/"];
+    let mut exhaustive: Vec<GExpr> = Vec::new();
+    let leaf = |n: &str| GExpr::Name(n.to_string());
+    // all ordered pairs and triples of binary operators, both groupings of the tree
+    for a in &ops { for b in &ops {
+        exhaustive.push(GExpr::Bin(a, Box::new(GExpr::Bin(b, Box::new(leaf("x")), Box::new(leaf("y")))), Box::new(leaf("z"))));
+        exhaustive.push(GExpr::Bin(a, Box::new(leaf("x")), Box::new(GExpr::Bin(b, Box::new(leaf("y")), Box::new(leaf("z"))))));
+    } }
+    for u in &["-", "~", "!", "+"] { for a in &ops {
+        exhaustive.push(GExpr::Bin(a, Box::new(GExpr::Un(u, Box::new(leaf("x")))), Box::new(leaf("y"))));
+        exhaustive.push(GExpr::Bin(a, Box::new(leaf("x")), Box::new(GExpr::Un(u, Box::new(leaf("y"))))));
+        exhaustive.push(GExpr::Un(u, Box::new(GExpr::Bin(a, Box::new(leaf("x")), Box::new(leaf("y"))))));
+        exhaustive.push(GExpr::Bin(a, Box::new(GExpr::In(Box::new(leaf("x")), vec![leaf("p"), leaf("q")])), Box::new(leaf("y"))));
+        exhaustive.push(GExpr::In(Box::new(GExpr::Bin(a, Box::new(leaf("x")), Box::new(leaf("y")))), vec![leaf("p")]));
+    } }
+    let total = count as usize;
+    for idx in 0..total {
+        let e = if idx < exhaustive.len() { exhaustive[idx].clone() } else if rng.chance(1, 3) {
+            // random triples
+            let a = *rng.pick(&ops[..]); let b = *rng.pick(&ops[..]); let c = *rng.pick(&ops[..]);
+            let inner = GExpr::Bin(b, Box::new(leaf("x")), Box::new(leaf("y")));
+            let mid = if rng.chance(1, 2) { GExpr::Bin(a, Box::new(inner), Box::new(leaf("z"))) } else { GExpr::Bin(a, Box::new(leaf("z")), Box::new(inner)) };
+            if rng.chance(1, 2) { GExpr::Bin(c, Box::new(mid), Box::new(leaf("w"))) } else { GExpr::Bin(c, Box::new(leaf("w")), Box::new(mid)) }
+        } else {
+            let (mut sc, _) = crate::gen::operand_scope(rng);
+            let w = if rng.chance(1, 4) { W::Unl } else { W::Bits(*rng.pick(&crate::gen::WIDTHS)) };
+            let depth = rng.range(1, 4) as u32;
+            let _ = Scope::new(vec![]);
+            crate::gen::gen(rng, &mut sc, w, depth)
+        };
+        let tmin = render_min(&e);
+        let tfull = render(&e);
+        let pmin = hclrs::verif_hooks::parse_expr(&tmin);
+        let pfull = hclrs::verif_hooks::parse_expr(&tfull);
+        // the same text with comments, blanks, CR/LF put where it has a blank, and wrapped in redundant parentheses
+        let mut ttriv = String::new();
+        for ch in tmin.chars() {
+            if ch == ' ' && rng.chance(1, 2) {
+                ttriv.push_str(*rng.pick(&["  ", "\n", "\r\n", "\t", " /* c */ ", " # c\n", " // c\r\n", " /***/ ", "\r"][..]));
+            } else { ttriv.push(ch); }
+        }
+        if rng.chance(1, 3) { ttriv = format!("(({}))", ttriv); }
+        let ptriv = hclrs::verif_hooks::parse_expr(&ttriv);
+        let result = match (&pmin, &pfull, &ptriv) {
+            (Ok(a), Ok(b), Ok(c)) => if strip_spans(a) != strip_spans(b) { format!("DIFF min={} full={}", strip_spans(a), strip_spans(b)) }
+                else if strip_spans(a) != strip_spans(c) { format!("DIFF-TRIVIA min={} trivia={}", strip_spans(a), strip_spans(c)) }
+                else { format!("same {}", a) },
+            (Err(_), _, _) => format!("ERR-min {}", tmin),
+            (_, Err(_), _) => format!("ERR-full {}", tfull),
+            (_, _, Err(_)) => format!("ERR-trivia {}", ttriv.replace('\n', "\\n").replace('\r', "\\r")),
+        };
+        let cps: Vec<String> = tmin.chars().map(|c| (c as u32).to_string()).collect();
+        emit(format!("(parse {} (text {}) (src {}))", cls3_sexp(&tmin), cps.join(" "), sexp_escape(&tmin)), result);
+    }
+}
